@@ -13,7 +13,7 @@ META = {
         "quick": {"sign": "all secrets d in [1,N-1], digests z in [0,2^256), nonces k in [1,N-1] (real N; nonce generator stubbed to an arbitrary k)",
                   "rfc6979": "all d, z; HMAC-DRBG loop unwound to 3 candidate draws; HMAC-SHA256 uninterpreted",
                   "verify": "all keys d in [1,N-1], z in [0,2^256), r, s in [-2^257, 2^257]",
-                  "toy": "end-to-end sign->verify cross-check without abstraction on the real curve classes over F_43 (group order 31): d in 1..4, all k, z in 0..8 (thorough: all d, z in 0..63)", "der": "r, s in [1,N-1] partitioned by the number of leading zero bytes (0..3) and the high-bit pad; "
+                  "toy": "end-to-end sign->verify cross-check without abstraction on the real curve classes over F_43 (group order 31): d in 1..4, all k, z in 0..8 (thorough: all d in 1..30, z in 0..33)", "der": "r, s in [1,N-1] partitioned by the number of leading zero bytes (0..3) and the high-bit pad; "
                          "Signature.parse on arbitrary strings of <= 9 bytes"},
         "thorough": {"der": "leading zero bytes 0..31, parse on arbitrary strings of <= 11 bytes", "rfc6979": "5 candidate draws"}},
     "outside": ["cecc.py (libsec bindings, not importable here)", "sign_message/verify_message hashing (one hash256 call)",
@@ -359,14 +359,14 @@ def replay_der_parse(w):
 # ---------------------------------------------------------------------------------------- O5 end-to-end cross-check on toy groups
 
 
-def _toy_path(p, q, dmax, zmax):
+def _toy_path(p, q, dmin, dmax, zmax):
     """no abstraction at all: the real Point/S256Point arithmetic over y^2 = x^3 + 7 / F_p with prime group order q (module
     constants re-bound), z3 bit-vectors only.  Cross-checks the abstract-group + canonical-form route of O1/O3 end to end."""
     from checks.c03 import Toy, ref_mul
     t = Toy(p, q)
     try:
         m = t.m
-        d = SI.var("d", 1, dmax)
+        d = SI.var("d", dmin, dmax)
         k = SI.var("k", 1, q - 1)
         z = SI.var("z", 0, zmax)
         wit = lambda env: {"p": p, "q": q, "d": env["d"], "k": env["k"], "z": env["z"]}  # noqa
@@ -389,9 +389,9 @@ def _toy_path(p, q, dmax, zmax):
         t.close()
 
 
-def ob_toy(p, q, dmax, zmax):
-    r = sym_run(lambda: _toy_path(p, q, dmax, zmax), timeout_ms=30000, max_paths=2000000)
-    r["sample"] = {"toy group": f"y^2=x^3+7 / F_{p}, order {q}", "d": f"1..{dmax}", "k": f"1..{q - 1}", "z": f"0..{zmax}"}
+def ob_toy(p, q, dmin, dmax, zmax):
+    r = sym_run(lambda: _toy_path(p, q, dmin, dmax, zmax), timeout_ms=30000, max_paths=2000000)
+    r["sample"] = {"toy group": f"y^2=x^3+7 / F_{p}, order {q}", "d": f"{dmin}..{dmax}", "k": f"1..{q - 1}", "z": f"0..{zmax}"}
     return r
 
 
@@ -470,9 +470,9 @@ def obligations(tier):
         obs.append(Ob("O4-der", ob_der, {"sizes": tuple(sizes[i:i + 4])}, replay="der"))
     obs.append(Ob("O4-der-parse", ob_der_parse, {"maxn": 9 if q else 11}, replay="der_parse", budget_s=1500))
     if q:
-        obs.append(Ob("O5-toy-end-to-end", ob_toy, {"p": 43, "q": 31, "dmax": 4, "zmax": 8}, replay="toy", budget_s=1500))
+        obs.append(Ob("O5-toy-end-to-end", ob_toy, {"p": 43, "q": 31, "dmin": 1, "dmax": 4, "zmax": 8}, replay="toy", budget_s=1500))
     else:
-        for dlo in range(0, 30, 5):
-            obs.append(Ob("O5-toy-end-to-end", ob_toy, {"p": 43, "q": 31, "dmax": 30, "zmax": 63}, replay="toy", budget_s=6000))
-            break
+        for dlo in range(1, 31, 3):
+            obs.append(Ob("O5-toy-end-to-end", ob_toy, {"p": 43, "q": 31, "dmin": dlo, "dmax": min(dlo + 2, 30), "zmax": 33}, replay="toy",
+                          budget_s=6000))
     return obs
